@@ -342,3 +342,31 @@ func ReadJSON(path string, v any) {
 		os.Exit(2)
 	}
 }
+
+// Local is a per-worker violation collector (no locking, lazy rendering): only
+// the first (smallest-order) example of each key is rendered.
+type Local struct {
+	m map[string]*Viol
+}
+
+func NewLocal() *Local { return &Local{m: map[string]*Viol{}} }
+
+func (l *Local) Add(key string, order int64, render func() (what string, replay any)) {
+	if v, ok := l.m[key]; ok {
+		v.Count++
+		if order < v.Order {
+			v.Order = order
+			v.What, v.Replay = render()
+		}
+		return
+	}
+	w, rp := render()
+	l.m[key] = &Viol{Key: key, What: w, Replay: rp, Count: 1, Order: order}
+}
+
+func (r *Run) MergeLocal(l *Local) {
+	for _, v := range l.m {
+		r.Merge(v)
+	}
+	l.m = map[string]*Viol{}
+}
